@@ -35,13 +35,16 @@ pub struct ScriptedReader {
     pub step: usize,
     /// when the schedule is exhausted: deliver this many bytes per poll
     pub default_chunk: usize,
+    /// chunk boundaries of the stream (sorted offsets): when set, a poll delivers at most up to the
+    /// next boundary and the schedule only contributes its `Pending`s
+    pub bounds: Option<Vec<usize>>,
     pub log: Vec<PollLog>,
 }
 
 impl ScriptedReader {
     pub fn new(data: Vec<u8>, sched: Vec<Sched>, default_chunk: usize) -> Self {
         let n = data.len();
-        ScriptedReader { data, pos: 0, eof_at: n, sched, step: 0, default_chunk, log: Vec::new() }
+        ScriptedReader { data, pos: 0, eof_at: n, sched, step: 0, default_chunk, bounds: None, log: Vec::new() }
     }
     pub fn max_cap(&self) -> usize {
         self.log.iter().map(|l| l.cap).max().unwrap_or(0)
@@ -66,6 +69,10 @@ impl AsyncRead for ScriptedReader {
             }
             Sched::Deliver(k) => {
                 let avail = self.eof_at - self.pos;
+                let k = match &self.bounds {
+                    Some(b) => b.iter().find(|x| **x > self.pos).map(|x| *x - self.pos).unwrap_or(usize::MAX),
+                    None => k,
+                };
                 let n = k.max(1).min(cap).min(avail);
                 let (a, b) = (self.pos, self.pos + n);
                 buf.put_slice(&self.data[a..b]);
